@@ -993,22 +993,29 @@ func c19Streams(c *Ctx) {
 		c.count([]string{"C19"}, term, how != "framed", desc)
 		c.dist("c19_scan", fmt.Sprintf("%s ok=%v", how, ok))
 	}
-	// filter sections: valid, damaged, re-sealed with odd framing
-	for i := 0; i < c.pick(250, 8000); i++ {
+	// filter sections: valid, damaged, re-sealed with odd framing; first the sections around the smallest
+	// possible size (the checksum alone, an empty payload whose CRC32C is 0, one and two payload bytes)
+	tiny := [][]byte{{}, {0}, {0, 0, 0}, {0, 0, 0, 0}, {0, 0, 0, 0, 0}, resealSection(nil), resealSection([]byte{0}), resealSection([]byte{7}),
+		resealSection([]byte{0, 0}), resealSection([]byte{1, 0, 0, 0, 0}), {0xff, 0xff, 0xff, 0xff}}
+	for i := 0; i < len(tiny)+c.pick(250, 8000); i++ {
 		sec, err := bs.VerifEncodeFilterSection(c.randomFilters(5))
 		must(err)
 		how := "valid"
-		switch c.intn(6) {
-		case 0:
+		if i < len(tiny) {
+			sec, how = tiny[i], "tiny"
+		}
+		switch x := c.intn(6); {
+		case how == "tiny":
+		case x == 0:
 			sec[c.intn(len(sec))] ^= 1 << c.intn(8)
 			how = "bitflip"
-		case 1:
+		case x == 1:
 			sec = sec[:c.intn(len(sec))]
 			how = "truncated"
-		case 2:
+		case x == 2:
 			sec = append(sec, c.randomBytes(1+c.intn(6))...)
 			how = "extended"
-		case 3, 4:
+		case x == 3 || x == 4:
 			sec = resealSection(c.oddPayload(sec))
 			how = "resealed"
 		}
